@@ -282,8 +282,13 @@ func ruleC06R3(r *Run, le *LockEngine) {
 	okFound := false
 	if lk.CommaOk && lk.Referrers() != nil {
 		for _, ref := range *lk.Referrers() {
-			if ex, isEx := ref.(*ssa.Extract); isEx && ex.Index == 1 && condTrueDominates(router, ex, snd) {
-				okFound = true
+			if ex, isEx := ref.(*ssa.Extract); isEx && ex.Index == 1 {
+				if condTrueDominates(router, ex, snd) {
+					okFound = true
+				}
+				if condTrueDominates(router, ex, del) {
+					okOrder = true
+				}
 			}
 		}
 	}
